@@ -53,7 +53,9 @@ func faucetUser(ls []world.Leaf, id string) *faucetsc.UserNode {
 // poured since the window's start never exceed the configured limit.
 func faucetMonitor() chainsim.Monitor {
 	hist := map[*chainsim.SNode][]pourRec{}
+	pg := &purger{}
 	return func(s *chainsim.Step, v func(key, what string)) {
+		purgeOld(pg, hist, s.Pre)
 		h := hist[s.Pre]
 		defer func() {
 			if s.Err == nil {
@@ -187,7 +189,7 @@ func faucetScenario(run *ev.Run, drain bool) *scenario {
 		if run.Thorough() {
 			sc.acts = append(sc.acts, withDt(call(w, "c2", "faucetsc", "refill", nil, 3, 0, "[v=3]"), 5))
 		}
-		sc.dq, sc.dt = 4, 6
+		sc.dq, sc.dt = 4, 4
 		sc.rule = "BFS over all sequences of faucet pours/refills (2 clients, requested values 0..max_pour_amount+1, time steps 1/2/3/5/6 s across the 3 s individual and 6 s global reset, tiny limits 2/5/7/11) up to the depth bound; oracle per successful pour: tokens actually poured since the start of the reported client window <= periodic limit, since the start of the reported global window <= global limit, windows never restarted before a full reset period, pour <= faucet balance, only successful pours take tokens out of the faucet"
 		return sc
 	}
